@@ -73,6 +73,7 @@ pub fn universe() -> Vec<UVal> {
         u("[1,2]b", vec![Push(vec![n(1.0)]), Push(vec![n(2.0)])]),
         u("['a']", vec![Push(vec![s("a")])]),
         u("[mysterious]", vec![Push(vec![lit(Lit::Mysterious)])]),
+        u("[NaN]", vec![Push(vec![bin(BinOp::Divide, n(0.0), n(0.0))])]),
         u("[[1],[2]]", vec![PushArrayOf(vec![n(1.0)]), PushArrayOf(vec![n(2.0)])]),
         u("{k:1}", vec![SetKey(Lit::Str("k".into()), n(1.0))]),
         u("[1]{true:'x'}", vec![Push(vec![n(1.0)]), SetKey(Lit::Bool(true), s("x"))]),
